@@ -1,11 +1,13 @@
 import SynRBLModel.Driver.JsonUtil
 import SynRBLModel.Driver.Ops.Core
+import SynRBLModel.Driver.Ops.Pipeline
 /-! Operation table of the driver: every layer contributes a partial dispatcher `dispatch? : String → Json → Option (R Json)`. -/
 namespace SynRBL.Drv
 open Lean
 
 def dispatchers : List (String → Json → Option (R Json)) := [
-  Core.dispatch?
+  Core.dispatch?,
+  Pipeline.dispatch?
 ]
 
 def dispatch (op : String) (j : Json) : R Json :=
